@@ -64,6 +64,8 @@ package peer
 // C01: verification succeeds only for a message whose signature verifies, under the key
 // embedded in the claimed sender ID, over exactly signBody(context, type, digest(type, body)).
 //@ func (*SignedMsg).ExtractAndVerify
+//@   nilable-receiver
+//@   ensures ret2 == nil ==> m != nil
 //@   ensures ret2 == nil ==> len(m.Data) > 0 && len(m.FromPeerId) > 0
 //@   ensures ret2 == nil ==> b58ok(m.FromPeerId) && ret1 == b58dec(m.FromPeerId)
 //@   ensures ret2 == nil ==> ret0 != nil && pubKeyPBok(mhDigest(ret1)) && rawPub(ret0) == pubKeyFromPB(mhDigest(ret1))
@@ -101,7 +103,7 @@ package peer
 //@   assert at call invoke.Seal: same(arg3, msgPubKey) && same(arg1, msgNonce) && same(arg0, prefix)
 //@ func DecryptWithEd25519
 //@   noframe
-//@   assert at call invoke.Open: len(arg3) == 32 && same(arg1, msgNonce) && same(arg2, msgEnc)
+//@   assert at call invoke.Open: len(arg3) == 32 && same(arg1, msgNonce) && content(arg2) == ciphertext[36..]
 //@   assert at call invoke.Open: forall i int :: 0 <= i && i < 32 ==> arg3[i] == msgPubKey[i]
 //@ func EncryptToPubKey
 //@   noframe
